@@ -26,6 +26,10 @@ before anything is executed - never after looking at an outcome).  ``excluded(as
   E10 nested order       an ordering on a nested statement without limit has no meaning; SQLite rejects it in
                          compound operands
   E11 colliding literal  literals -1 / -2 (CPython hash collision, property C08) unless asked for
+  E12 ambiguous handles  two different references with the same name (or a reference named like a table) among the
+                         origins of one query: SQL has no way to tell them apart, the DSL grammar is silent
+Per engine (``engine_excluded``): E13 a set operation with a set operation as an operand is not run on SQLite (its
+grammar has no parenthesised compound operands; DuckDB runs them).
 """
 import fractions
 import itertools
@@ -251,6 +255,10 @@ def excluded(ast, allow_colliding=False):
                     if node['kind'] == 'str' and value not in STRINGS:
                         return 'E4 string outside the dictionary'
         if src['t'] == 'query':
+            handles = {}
+            for leaf in _leaves(src['l']):
+                if handles.setdefault(leaf['name'], g.canon(leaf)) != g.canon(leaf):
+                    return 'E12 ambiguous handles'
             for feat in feats:
                 for node in _nodes(feat):
                     if node['f'] == 'agg' and node['op'] == 'avg':
@@ -272,6 +280,14 @@ def excluded(ast, allow_colliding=False):
                         ([src['having']] if src['having']['f'] != 'nil' else []):
                     if _bare_elements(feat['args'][0] if feat['f'] == 'alias' else feat, groups):
                         return 'E9 bare aggregate mix'
+    return None
+
+
+def engine_excluded(ast, engine):
+    if engine == 'sqlite':
+        for src, _ in _sources(ast):
+            if src['t'] == 'set' and (src['l']['t'] == 'set' or src['r']['t'] == 'set'):
+                return 'E13 nested set operation'
     return None
 
 
@@ -388,6 +404,8 @@ def observe(ast, engines, parser_cls=None):
         return {'outs': outs, 'by': by, 'err': err}
     avg = avg_positions(ast)
     for name in engines.conns:
+        if engine_excluded(ast, name):
+            continue
         try:
             put(name, 'ok', enc_rows(engines.run(name, selectable), avg))
         except Exception as exc:  # pylint: disable=broad-except
@@ -401,24 +419,37 @@ def _pick(rnd, seq):
     return seq[rnd.randrange(len(seq))]
 
 
-def rand_scalar(rnd, elems, depth, kind='int'):
-    """Random integer valued scalar over the numeric elements."""
+class _Names:
+    """Fresh reference names for one generated statement."""
+
+    def __init__(self):
+        self.n = 0
+
+    def __call__(self):
+        self.n += 1
+        return f'r{self.n}'
+
+
+def rand_scalar(rnd, elems, depth, safe=True):
+    """Random integer valued scalar over the numeric elements (abs only outside the safe mode: the alchemy parser
+    cannot render it at all, see the findings)."""
     nums = [e for e in elems if g.feature_kind(e) in g.NUMERIC]
     if depth <= 0 or not nums or rnd.random() < 0.35:
         if nums and rnd.random() < 0.75:
             return _pick(rnd, nums)
         return g.lit(rnd.choice([0, 1, 2, 3]))
     r = rnd.random()
-    if r < 0.6:
-        return g.op(rnd.choice(['add', 'sub', 'mul']), rand_scalar(rnd, elems, depth - 1), rand_scalar(rnd, elems, depth - 1))
-    if r < 0.75:
-        return g.op('mod', rand_scalar(rnd, elems, depth - 1), g.lit(rnd.choice([2, 3])))
-    if r < 0.85:
-        return g.cast(rand_scalar(rnd, elems, depth - 1), rnd.choice(['int', 'float']))
-    return g.op('abs', rand_scalar(rnd, elems, depth - 1))
+    if r < 0.65:
+        return g.op(rnd.choice(['add', 'sub', 'mul']), rand_scalar(rnd, elems, depth - 1, safe),
+                    rand_scalar(rnd, elems, depth - 1, safe))
+    if r < 0.8:
+        return g.op('mod', rand_scalar(rnd, elems, depth - 1, safe), g.lit(rnd.choice([2, 3])))
+    if r < 0.95 or safe:
+        return g.cast(rand_scalar(rnd, elems, depth - 1, safe), rnd.choice(['int', 'float']))
+    return g.op('abs', rand_scalar(rnd, elems, depth - 1, safe))
 
 
-def rand_atom(rnd, elems, allow_abs=True):
+def rand_atom(rnd, elems, safe=True):
     """Random comparison / null test over the elements."""
     r = rnd.random()
     by_kind = {}
@@ -431,25 +462,17 @@ def rand_atom(rnd, elems, allow_abs=True):
         return g.op(rnd.choice(g.COMPARE), _pick(rnd, by_kind['str']), other)
     if r < 0.28 and by_kind.get('bool'):
         return g.op(rnd.choice(['eq', 'ne']), _pick(rnd, by_kind['bool']), g.lit(rnd.choice([True, False])))
-    left = rand_scalar(rnd, elems, 1)
-    right = rand_scalar(rnd, elems, 1)
-    return g.op(rnd.choice(g.COMPARE), left, right)
+    return g.op(rnd.choice(g.COMPARE), rand_scalar(rnd, elems, 1, safe), rand_scalar(rnd, elems, 1, safe))
 
 
-def rand_pred(rnd, elems, depth, neg=0.15):
+def rand_pred(rnd, elems, depth, neg=0.15, safe=True):
     r = rnd.random()
     if depth <= 0 or r < 0.4:
-        return rand_atom(rnd, elems)
+        return rand_atom(rnd, elems, safe)
     if r < 0.4 + neg:
-        return g.op('not', rand_pred(rnd, elems, depth - 1, neg))
-    return g.op(rnd.choice(['and', 'or']), rand_pred(rnd, elems, depth - 1, neg), rand_pred(rnd, elems, depth - 1, neg))
-
-
-def single_origin_pred(rnd, origin, depth, neg=0.0):
-    """Predicate over the elements of ONE table / reference of the origin (keeps clear of the multi-table factor
-    crash so that the semantics behind it get exercised)."""
-    leaves = [o for o in _leaves(origin)]
-    return rand_pred(rnd, g.elements(_pick(rnd, leaves)), depth, neg)
+        return g.op('not', rand_pred(rnd, elems, depth - 1, neg, safe))
+    return g.op(rnd.choice(['and', 'or']), rand_pred(rnd, elems, depth - 1, neg, safe),
+                rand_pred(rnd, elems, depth - 1, neg, safe))
 
 
 def _leaves(origin):
@@ -458,46 +481,62 @@ def _leaves(origin):
     return _leaves(origin['l']) + _leaves(origin['r'])
 
 
-def rand_origin(rnd, depth, safe):
-    """Random origin: tables, references (also of statements), joins of every kind with random conditions."""
+def single_origin_pred(rnd, origin, depth, neg=0.0, safe=True):
+    """Predicate over the elements of ONE table / reference of the origin (keeps clear of the multi-table factor
+    crash so that the semantics behind it get exercised)."""
+    return rand_pred(rnd, g.elements(_pick(rnd, _leaves(origin))), depth, neg, safe)
+
+
+def rand_origin(rnd, depth, safe, names):
+    """Random origin: tables, references (also of statements), joins of every kind with random conditions.
+    Safe mode keeps join conditions clear of the known parser crashes: a comparison never mixes a table column with
+    a reference element, predicates combining several origins are single comparisons."""
     tabs = list(g.TABLES.values())
     r = rnd.random()
     if depth <= 0 or r < 0.2:
         t = _pick(rnd, tabs)
-        return g.ref(t, rnd.choice(['r', 'q'])) if rnd.random() < 0.15 else t
+        return g.ref(t, names()) if rnd.random() < 0.15 else t
     if r < 0.35:
-        inner = rand_query(rnd, depth - 1, safe, nested=True)
-        return g.ref(inner, rnd.choice(['u', 'v']))
-    left = rand_origin(rnd, depth - 1, safe)
-    used = {g.canon(o) for o in _leaves(left)}
-    cands = [t for t in tabs if g.canon(t) not in used]
-    cands += [g.ref(t, n) for t in tabs for n in ('x', 'y') if g.canon(g.ref(t, n)) not in used][:3]
-    right = _pick(rnd, cands)
+        return g.ref(rand_query(rnd, depth - 1, safe, True, names), names())
+    left = rand_origin(rnd, depth - 1, safe, names)
+    used = {leaf['l']['name'] if leaf['t'] == 'ref' and leaf['l']['t'] == 'table' else leaf['name']
+            for leaf in _leaves(left) if leaf['t'] == 'table' or leaf['l']['t'] == 'table'}
+    direct = {leaf['name'] for leaf in _leaves(left) if leaf['t'] == 'table'}
+    cands = [t for t in tabs if t['name'] not in direct]
+    right = g.ref(_pick(rnd, tabs), names()) if not cands or rnd.random() < 0.3 else _pick(rnd, cands)
     kind = rnd.choice(g.JOINS)
     if kind == 'cross':
         return g.join(left, right, 'cross')
-    both = g.elements(left) + g.elements(right)
+    lel, rel = g.elements(left), g.elements(right)
+
+    def same_sort(a, b):
+        return (a['src']['t'] == 'table') == (b['src']['t'] == 'table')
+
+    la = [e for e in lel if g.feature_kind(e) == 'int']
+    ra = [e for e in rel if g.feature_kind(e) == 'int']
+    pairs = [(a, b) for a in la for b in ra if not safe or same_sort(a, b)]
     r2 = rnd.random()
-    if r2 < 0.45:
-        # the classic: equality / comparison between one element of each side
-        la = [e for e in g.elements(left) if g.feature_kind(e) == 'int']
-        ra = [e for e in g.elements(right) if g.feature_kind(e) == 'int']
-        cond = g.op(rnd.choice(g.COMPARE), _pick(rnd, la), _pick(rnd, ra)) if la and ra else rand_atom(rnd, both)
-    elif r2 < 0.7 or safe:
-        cond = rand_atom(rnd, both)
+    if pairs and (r2 < 0.6 or safe):
+        a, b = _pick(rnd, pairs)
+        cond = g.op(rnd.choice(g.COMPARE), a, b)
+        if rnd.random() < 0.2 and not safe:
+            cond = g.op(rnd.choice(['and', 'or']), cond, rand_atom(rnd, lel + rel, safe))
+    elif safe:
+        cond = rand_atom(rnd, g.elements(_pick(rnd, _leaves(right))), safe)
     else:
-        cond = rand_pred(rnd, both, 2)
+        cond = rand_pred(rnd, lel + rel, 2, 0.15, safe)
     return g.join(left, right, kind, cond)
 
 
-def rand_query(rnd, depth, safe, nested=False):
+def rand_query(rnd, depth, safe, nested=False, names=None):
     """Random conforming query inside the compared semantics (re-checked by ``excluded`` and by WellFormed in TLC)."""
-    origin = rand_origin(rnd, depth, safe)
+    names = names or _Names()
+    origin = rand_origin(rnd, depth, safe, names)
     elems = g.elements(origin)
     where = None
     if rnd.random() < 0.6:
-        where = single_origin_pred(rnd, origin, 2, 0.0 if safe else 0.15) if safe or rnd.random() < 0.5 \
-            else rand_pred(rnd, elems, 2)
+        where = single_origin_pred(rnd, origin, 2, 0.0 if safe else 0.15, safe) if safe or rnd.random() < 0.5 \
+            else rand_pred(rnd, elems, 2, 0.15, safe)
     nums = [e for e in elems if g.feature_kind(e) in g.NUMERIC]
     if rnd.random() < 0.35 and nums:
         group = [_pick(rnd, elems)] + ([_pick(rnd, elems)] if rnd.random() < 0.3 else [])
@@ -513,17 +552,16 @@ def rand_query(rnd, depth, safe, nested=False):
         order = []
         if rnd.random() < 0.4:
             order = [g.order_term(g.agg('count', _pick(rnd, nums)), rnd.choice(g.DIRS))]
-        rows = [rnd.randint(1, 3), rnd.randint(0, 2)] if (order or not nested) and rnd.random() < 0.3 and not nested else None
-        return g.query(origin, sel, where, group, having, order, rows)
+        rows = [rnd.randint(1, 3), rnd.randint(0, 2)] if not nested and rnd.random() < 0.3 else None
+        return g.query(origin, sel, where, group, having, order if not nested else [], rows)
     if rnd.random() < 0.12 and nums and not nested:
         aggs = [g.alias(g.agg(rnd.choice(g.AGGS), _pick(rnd, nums)), f'a{i}') for i in range(rnd.randint(1, 3))]
         return g.query(origin, aggs, where)
     sel = []
     if rnd.random() < 0.85 or nested:
-        names = set()
         for i in range(rnd.randint(1, 3)):
             r = rnd.random()
-            x = _pick(rnd, elems) if r < 0.5 else (rand_scalar(rnd, elems, 2) if r < 0.8 else rand_atom(rnd, elems))
+            x = _pick(rnd, elems) if r < 0.5 else (rand_scalar(rnd, elems, 2, safe) if r < 0.8 else rand_atom(rnd, elems, safe))
             sel.append(g.alias(x, f'c{i}'))
     order = []
     if rnd.random() < 0.5:
@@ -531,14 +569,10 @@ def rand_query(rnd, depth, safe, nested=False):
         if keys:
             order = [g.order_term(_pick(rnd, keys), rnd.choice(g.DIRS))]
             if rnd.random() < 0.4:
-                order.append(g.order_term(rand_scalar(rnd, keys, 1), rnd.choice(g.DIRS)))
-    rows = None
-    if rnd.random() < 0.35:
-        rows = [rnd.randint(1, 3), rnd.randint(0, 2)]
+                order.append(g.order_term(rand_scalar(rnd, keys, 1, safe), rnd.choice(g.DIRS)))
+    rows = [rnd.randint(1, 3), rnd.randint(0, 2)] if rnd.random() < 0.35 else None
     q = g.query(origin, sel, where, (), None, order, rows)
-    if nested and (q['rows'] and not total_order(q)):
-        q = g.query(origin, sel, where, (), None, [], None)
-    if nested and q['order'] and not q['rows']:
+    if nested and ((q['rows'] and not total_order(q)) or (q['order'] and not q['rows'])):
         q = g.query(origin, sel, where, (), None, [], None)
     return q
 
@@ -551,7 +585,7 @@ def rand_statement(rnd, depth=2, safe=True):
         cols = rnd.sample(['i', 's', 'k'], rnd.randint(1, 3))
 
         def operand(tab):
-            where = rand_pred(rnd, g.elements(tab), 1, 0.0 if safe else 0.15) if rnd.random() < 0.6 else None
+            where = rand_pred(rnd, g.elements(tab), 1, 0.0 if safe else 0.15, safe) if rnd.random() < 0.6 else None
             return g.query(tab, [g.col(tab, c) for c in cols], where)
 
         stmt = g.setop(operand(t), operand(u), rnd.choice(g.SETS))
@@ -561,14 +595,15 @@ def rand_statement(rnd, depth=2, safe=True):
     return rand_query(rnd, depth, safe)
 
 
-def semantic_statements(seed, n, depth=2):
-    """n seeded random statements inside the compared semantics: half of them 'safe' (single-table predicates, no
-    negation: they stay clear of the known parser crashes and reach the engines), half unrestricted."""
+def semantic_statements(seed, n, depth=2, safe_share=0.7):
+    """n seeded random statements inside the compared semantics: ``safe_share`` of them 'safe' (no negation, no abs,
+    predicates over several origins only as single comparisons that do not mix tables with references: they stay
+    clear of the known parser crashes and reach the engines), the rest unrestricted."""
     rnd = random.Random(seed)
     out, seen, tries = [], set(), 0
     while len(out) < n and tries < n * 40:
         tries += 1
-        stmt = rand_statement(rnd, rnd.randint(1, depth), safe=(tries % 2 == 0))
+        stmt = rand_statement(rnd, rnd.randint(1, depth), safe=(rnd.random() < safe_share))
         key = g.canon(stmt)
         if key in seen or excluded(stmt):
             continue
